@@ -192,6 +192,15 @@ def _run_pwl(ctx, case, st):
       okm = bool(np.all(np.abs(ym - mov) <= tol0))
     else:
       okm = bool(np.all(np.isfinite(ym)) and ym.min() >= omin - tol0 and ym.max() <= omax + tol0)
+      # the derived missing output is documented: sigmoid of each unit's last output parameter, rescaled into the range
+      ko = (kout[:1] if kout.shape[0] > 1 else kout).astype(np.float64)
+      ko = ko.reshape(1, -1, ko.shape[-1]) if ko.ndim == 3 else ko.reshape(1, 1, ko.shape[-1])
+      last = np.clip(ko[0, :, -1], -700, 700)
+      want = omin + (omax - omin) / (1.0 + np.exp(-last))               # (units,) or (1,)
+      want = np.broadcast_to(want.reshape(1, -1), (2, units)) if want.size in (1, units) else None
+      if okm and want is not None and ym.shape == (2, units):
+        em = float(np.abs(ym - want).max())
+        okm = em <= tol0 + 1e-5 * abs(omax - omin)
     ctx.check("pwl_calibration_fn/missing", okm, "missing input value maps to %s" % ym.tolist())
   if mono == "increasing" and not case["batch_params"]:
     for u in range(units):
